@@ -19,6 +19,7 @@ from harness.frames import (AT_OP, AT_RAISE, AT_RETURN, AT_YIELD, CO_COROUTINE, 
                             record_workload, representation_ok, residue, seed_function, validate_contract)
 from harness.values import Grammar, build_value, show
 from vfix import funcs as F
+from vfix import twin_a, twin_b  # noqa: E402
 
 from monkeytype.tracing import CallTrace, CallTracer, get_func
 from monkeytype.typing import get_type
@@ -348,6 +349,9 @@ def workload():
     F.L3.cchained(1); J["cchained"] = [("return", 1), ("return", 1), ("return", 1)]
     F.posonly_star(1, 2, 3, z=4); J["posonly_star"] = [("return", 1)]
     asyncio.run(F.coro_rebinding(5)); J["coro_rebinding"] = [("return", "5")]
+    # two modules with byte-identical source: equal code objects, different functions
+    twin_a.twin_same(1); twin_b.twin_same("s"); J["twin_same"] = [("return", 1), ("return", "s")]
+    twin_b.Twin().method(2.5); twin_a.Twin().method(None); J["method"] += [("return", [2.5]), ("return", [None])]
 
 
 _RECORDED = None
@@ -439,8 +443,8 @@ def realrun_body(t, k):
         if tr is None or getattr(tr.func, "__code__", None) is not code:
             if optional:
                 continue
-            return check(False, lambda: f"finished call of {code.co_qualname} (completion #{gi}) is not in the log at its place; "
-                                        f"logged there: {tr.func.__qualname__ if tr is not None else 'nothing'}")
+            return check(False, lambda: f"finished call of {code.co_qualname} from {os.path.basename(code.co_filename)} (completion #{gi}) is not in the log at its "
+                                        f"place; logged there: {(tr.func.__module__ + '.' + tr.func.__qualname__) if tr is not None else 'nothing'}")
         truth = _truth_function(code)
         r = _same_trace(tr, truth if truth is not None else tr.func, entry, ret_present, ret_value, yields, k)
         if r:
